@@ -58,4 +58,4 @@ Print Assumptions C13_threads.
 Example C13_key_clash_outside_action_list :
   cache_key V16 MCall "GetCompositeScheduleResponse" = cache_key V16 MCallResult "GetCompositeSchedule"
   /\ mode_of V16 MCall "GetCompositeScheduleResponse" <> mode_of V16 MCallResult "GetCompositeSchedule".
-Proof. split; [reflexivity | discriminate]. Qed.
+Proof. split; [vm_compute; reflexivity | intro H; vm_compute in H; discriminate]. Qed.
